@@ -307,6 +307,7 @@ class BDoc:
         self.paths_at = {}            # host key -> [names]   (one Path directive per host)
         self.body_override = {}       # host key -> body lines
         self.by_type = False          # Path bodies are references to user types; equal name lists share one type
+        self.extra_types = {}         # further TYPE directives (name -> body)
 
     def hosts(self):
         out = []
@@ -367,7 +368,7 @@ class BDoc:
                 mn = n(it[2] + " " + it[1], *(pathdir(("M", i)) + [n("200 any")]))
                 self.dir_nodes[("M", i)] = mn
                 nodes.append(mn)
-        for tn, body in self.types.items():
+        for tn, body in list(self.types.items()) + list(self.extra_types.items()):
             nodes.append(n("TYPE " + tn, body=body))
         return nodes
 
@@ -497,6 +498,13 @@ def stage_binding(cx):
             lay2[i] = (it[0], newp, it[2])
             e = BDoc(lay2)
             cases.append(("bad-path", e, ("reject", needle, ("dir", ("U", i) if it[0] == "URL" else ("M", i)))))
+    # a property typed by a user type that is only another name for an object / array type: the path variable would not be flat
+    for alias_body, target in (("@deep", '{\n  "k": 1\n}'), ("@deep", "[1]"), ("@deep | @deep", '{\n  "k": 1\n}')):
+        for spell in ('"x": @alias', '"x": 1 // {type: "@alias"}', '"x": 1 // {or: ["@alias", "integer"]}'):
+            e = BDoc([("URL", "/a/{x}", ["GET"])])
+            e.body_override[("U", 0)] = "{\n  %s\n}" % spell
+            e.extra_types = {"@alias": alias_body, "@deep": target}
+            cases.append(("property-typed-by-alias-of-structured-type", e, ("reject", None, ("path", ("U", 0)))))
     if cx.replay is not None:
         cases = []
     projects, metas = [], []
